@@ -39,7 +39,11 @@ class Aggregate:
         self.evaluations = 0
 
     def add(self, desc, res):
-        self.evaluations += 1
+        # one descriptor may be a batch of many cases: count the cases it explored (explicit count if the check gives
+        # one, else the number of case signatures it returned), never less than one
+        nkeys = len(res.get("keys") or ([res["key"]] if res.get("key") else []))
+        self.evaluations += max(1, nkeys, int(res.get("evaluations") or 0))
+        self.descriptors = getattr(self, "descriptors", 0) + 1
         st = res.get("status", "ok")
         self.status[st] += 1
         for k, v in (res.get("counters") or {}).items():
@@ -106,6 +110,7 @@ def finish(prop, level, tier, seed, agg, rule, wall, floors=None, extra=None, as
         "exhaustive": bool(exhaustive),
         "counters": dict(sorted(agg.counters.items())),
         "classes": dict(sorted(agg.classes.items())),
+        "descriptors_run": getattr(agg, "descriptors", agg.evaluations),
         "case_status": dict(agg.status),
         "known_findings_seen": {k: n for k, (e, n, v) in seen_known.items()},
         "unknown_violation_sigs": {k: len(v) for k, v in unknown.items()},
